@@ -49,6 +49,25 @@ def palette_documents(rng, n):
     return docs
 
 
+def multi_dependency_documents(rng, n):
+    """bindings that read several objects, some of them more than once (the order of the connections in setup<Binding>() must not depend on a hash seed)"""
+    docs = []
+    for _ in range(n):
+        k = rng.randrange(3, 7)
+        lines = ["import qmluic.QtWidgets", "QWidget {"]
+        for i in range(k):
+            lines.append("    QLineEdit { id: e%d }" % i)
+            lines.append("    QCheckBox { id: c%d }" % i)
+        reads = [rng.randrange(k) for _ in range(rng.randrange(4, 10))]
+        lines.append("    QLabel { text: %s }" % " + \" \" + ".join("e%d.text" % i for i in reads))
+        reads = [rng.randrange(k) for _ in range(rng.randrange(4, 9))]
+        lines.append("    QPushButton { enabled: %s }" % " && ".join(("c%d.checked" if rng.random() < 0.7 else "!c%d.checked") % i for i in reads))
+        lines.append("    windowTitle: %s" % " + ".join("e%d.text" % i for i in [rng.randrange(k) for _ in range(6)]))
+        lines.append("}")
+        docs.append("\n".join(lines) + "\n")
+    return docs
+
+
 def run(ctx):
     ctx.proof_leg(TARGETS, PINS, k_targets=U.K_TARGETS)
     vh = ctx.need_harness()
@@ -63,7 +82,7 @@ def run(ctx):
         wide.append(U.render(r))
         ctx.dist("wide" + ("-with-errors" if i % 2 else ""))
     corpus = D.corpus()
-    others = list(corpus) + palette_documents(rng, 12 if ctx.tier == "thorough" else 5)
+    others = list(corpus) + palette_documents(rng, 12 if ctx.tier == "thorough" else 5) + multi_dependency_documents(rng, 12 if ctx.tier == "thorough" else 5)
     for src in corpus[: (len(corpus) if ctx.tier == "thorough" else 40)]:
         others.append(D.mutate(rng, src))
     for _ in others:
